@@ -266,15 +266,141 @@ def work(item):
         case.cleanup()
 
 
+def work_expr(item):
+    """(a) for expression kernels: all call sequences <= 3 over two input sets on pre-filled A."""
+    import shutil
+    import tempfile
+
+    import ffcx.codegeneration.jit as jit
+    import ufl
+
+    from ..runner import scratch_root
+    from . import C04
+
+    k0, cfg, seed, thorough = item
+    res = dict(key=k0, status="ok", kernels=0, sequences=0, lvm_runs=0, lvm_skipped=0, schedules=0, shared_objects=0, threads_calls=0, failures=[], conformance=0)
+    try:
+        mesh, e, P, coefs, consts, cdeg, gdim = C04.build(cfg)
+    except Exception:
+        res["status"] = "inapplicable"
+        return res
+    cache = tempfile.mkdtemp(prefix="jitx_", dir=scratch_root())
+    try:
+        try:
+            with lvm.capture() as caps:
+                (xo,), module, code = jit.compile_expressions([(e, P)], options={"scalar_type": "float64"}, cache_dir=cache)
+        except Exception as ex:
+            res["status"] = "rejected"
+            return res
+        res["kernels"] = 1
+        statics = audit.static_nonconst_objects(code[1].replace("tabulate_tensor_", "tabulate_tensor_") if code[1] else "")
+        cell = cfg["cell"]
+        tdim = forms.TDIM[cell]
+        rng = np.random.default_rng([seed, 17])
+        pos = [xo.original_coefficient_positions[i] for i in range(xo.num_coefficients)]
+        oc = ufl.algorithms.extract_coefficients(e)
+        ok = ufl.algorithms.analysis.extract_constants(e)
+        args = ufl.algorithms.extract_arguments(e)
+        ncomp = int(np.prod(e.ufl_shape)) if e.ufl_shape else 1
+        ndof = args[0].ufl_function_space().ufl_element().dim if args else 1
+        nA = P.shape[0] * ncomp * ndof
+
+        def inputs():
+            (inst, X), = engine.geometry_instances(mesh, cell, cfg["geom"], rng, ("aff",))
+            wv = np.concatenate([rng.uniform(0.6, 1.4, size=oc[p].ufl_element().dim) for p in pos]) if pos else np.zeros(0)
+            cv = np.concatenate([rng.uniform(0.5, 1.5, size=int(np.prod(k.ufl_shape)) if k.ufl_shape else 1) for k in ok]) if ok else np.zeros(0)
+            return wv, cv, engine.pack_geometry([X * rng.uniform(0.8, 1.2)])
+
+        facet = P.shape[1] != tdim
+        inp = {"a": inputs(), "b": inputs()}
+        ev = {"a": (0, 0), "b": ((1, 1) if facet else (0, 0))}
+
+        def call(s, A0):
+            wv, cv, X = inp[s]
+            c = engine.Call("float64", A0, wv, cv, X, (ev[s][0],), (ev[s][1], 0), null_entity=not facet)
+            c.run(xo)
+            return c
+
+        T = {s: call(s, np.zeros(nA)).result() for s in "ab"}
+        scale = max(float(np.max(np.abs(T["a"]))), float(np.max(np.abs(T["b"]))), 1e-30)
+        pats = [np.linspace(1.0, 2.0, nA) * scale, np.where(np.arange(nA) % 2 == 0, -3.5, 7.25) * scale]
+        for Pt in pats:
+            for n in (1, 2, 3):
+                for seq in itertools.product("ab", repeat=n):
+                    A = Pt.copy()
+                    exp = Pt.copy()
+                    for s in seq:
+                        c = call(s, A)
+                        A = c.result()
+                        exp = exp + T[s]
+                        if c.breaches():
+                            res["failures"].append(dict(kind="input-or-moat-written", text=f"expression kernel: {c.breaches()}"))
+                    res["sequences"] += 1
+                    err = float(np.max(np.abs(A - exp))) / (scale * 10)
+                    if err > 1e-12 or not np.all(np.isfinite(A)):
+                        res["failures"].append(dict(kind="not-accumulating", sequence="".join(seq), text=f"expression kernel: after call sequence {''.join(seq)} on pre-filled A "
+                                                    f"the result differs from A0 + sum T by {err:.2e} (relative)"))
+                        break
+                if res["failures"]:
+                    break
+            if res["failures"]:
+                break
+        # LVM write trace
+        cap = [c for c in caps if c.kind == "expression"]
+        if cap and not res["failures"]:
+            prog = lvm.Program(cap[0].ast)
+            wv, cv, X = inp["a"]
+            A = np.zeros(nA)
+            try:
+                tr = prog.run(A, wv, cv, X, None if not facet else np.array([0]), None if not facet else np.array([0]), trace=lvm.Trace(budget=LVM_CAP))
+                res["lvm_runs"] += 1
+                if float(np.max(np.abs(A - T["a"]))) / scale > 1e-10:
+                    res["failures"].append(dict(kind="harness-conformance", text="LVM deviates from the C expression kernel"))
+                else:
+                    res["conformance"] += 1
+                    tA = tr.arr.get("A")
+                    if tA is not None and (tA[2] > 0 or tA[3] > 0):
+                        res["failures"].append(dict(kind="A-read-or-overwritten", text=f"expression kernel: A is read {tA[2]} times / plainly assigned {tA[3]} times (only '+=' allowed)"))
+            except lvm.Budget:
+                res["lvm_skipped"] += 1
+        if statics:
+            res["failures"].append(dict(kind="static-nonconst", text=f"expression kernel body declares non-const static objects: {statics[:2]}"))
+        if res["failures"]:
+            res["status"] = "violation"
+        return res
+    finally:
+        shutil.rmtree(cache, ignore_errors=True)
+
+
+def _dispatch(item):
+    if item[0].startswith("expr:"):
+        return work_expr(item)
+    return work(item)
+
+
+def expression_items(thorough, seed):
+    from . import C04
+
+    nodes, _ = C04.explore(1)
+    out = []
+    for k, cfg in nodes.items():
+        if cfg["scalar"] != "float64":
+            continue
+        if not thorough and cfg["cell"] not in ("triangle", "tetrahedron", "quadrilateral"):
+            continue
+        out.append(("expr:" + k, cfg, seed, thorough))
+    return out
+
+
 def main():
     chk = Check(PID)
     nodes, edges = audit.corpus(chk.thorough)
-    items = [(k, cfg, chk.seed, chk.thorough) for k, cfg in nodes.items()]
+    items = [(k, cfg, chk.seed, chk.thorough) for k, cfg in nodes.items()] + expression_items(chk.thorough, chk.seed)
     items.sort(key=lambda it: it[1]["cell"] in ("tetrahedron", "hexahedron", "prism"), reverse=True)
     tot = dict(configs=len(items), ok=0, inapplicable=0, rejected=0, kernels=0, sequences=0, lvm_runs=0, lvm_skipped=0, schedules=0,
                kernels_with_shared_static=0, threads_calls=0, conformance=0)
     samples = []
-    for it, r in pmap(work, items, desc="C07"):
+    for it, r in pmap(_dispatch, items, desc="C07"):
         for f in ("kernels", "sequences", "lvm_runs", "lvm_skipped", "schedules", "threads_calls", "conformance"):
             tot[f] += r[f]
         if r["shared_objects"]:
@@ -288,7 +414,7 @@ def main():
             if f["kind"] == "harness-conformance":
                 print("HARNESS-ERROR:", r["key"], f["text"])
                 raise SystemExit(2)
-            chk.violation(f"{PID}:{r['key']}:{f['kind']}", f["text"], recipe=dict(config=it[1], seed=chk.seed, thorough=chk.thorough), observed=r["failures"][:4])
+            chk.violation(f"{PID}:{r['key']}:{f['kind']}", f["text"], recipe=dict(key=it[0], config=it[1], seed=chk.seed, thorough=chk.thorough), observed=r["failures"][:4])
     cov = dict(states=tot["sequences"] + tot["schedules"], transitions=tot["sequences"] * 2 + tot["threads_calls"], traces_validated_against_impl=tot["conformance"],
                evaluations=tot["sequences"], distinct_nontrivial=tot["ok"], totals=tot, samples=samples or [dict(note="none")], exhaustive=True,
                rule=("per kernel of the corpus: all 14 call sequences of length <= 3 over two input sets x 2 pre-fill patterns on persistent A; complete LVM write trace; "
@@ -303,7 +429,7 @@ def main():
 def replay(path):
     doc = json.load(open(path))
     rec = doc["recipe"]
-    r = work(("replay", rec["config"], rec.get("seed", 0), rec.get("thorough", False)))
+    r = _dispatch((rec.get("key", "replay"), rec["config"], rec.get("seed", 0), rec.get("thorough", False)))
     print(r["status"])
     for f in r["failures"]:
         print("  ", f["text"])
